@@ -33,12 +33,37 @@ LessFrom(a, b, i) == IF i = 0 THEN FALSE
                      ELSE IF Byte(a, i) > Byte(b, i) THEN FALSE
                      ELSE LessFrom(a, b, i - 1)
 LessN(a, b) == LessFrom(a, b, MaxLen(a, b))
+LeqN(a, b) == ~LessN(b, a)
+RECURSIVE SubFrom(_, _, _, _)
+SubFrom(a, b, i, borrow) ==          \* a - b for a >= b
+    IF i > Len(a) THEN <<>>
+    ELSE LET d == a[i] - Byte(b, i) - borrow IN
+         IF d < 0 THEN <<d + 256>> \o SubFrom(a, b, i + 1, 1) ELSE <<d>> \o SubFrom(a, b, i + 1, 0)
+SubN(a, b) == Norm(SubFrom(a, b, 1, 0))
+AbsDiffN(a, b) == IF LessN(a, b) THEN SubN(b, a) ELSE SubN(a, b)
+SmallN(x) == IF x = 0 THEN <<>> ELSE IF x < 256 THEN <<x>> ELSE <<x % 256>> \o (IF x \div 256 < 256 THEN <<x \div 256>> ELSE <<(x \div 256) % 256, x \div 65536>>)   \* x < 2^24
+RECURSIVE Pow2Small(_)
+Pow2Small(n) == IF n = 0 THEN 1 ELSE 2 * Pow2Small(n - 1)
+ShlN(a, n) == IF Norm(a) = <<>> THEN <<>> ELSE [i \in 1..(n \div 8) |-> 0] \o MulByteFrom(a, Pow2Small(n % 8), 1, 0)
+RECURSIVE Pow10From(_, _)
+Pow10From(acc, n) == IF n = 0 THEN acc ELSE Pow10From(MulByteFrom(acc, 10, 1, 0), n - 1)
+Pow10N(n) == Pow10From(<<1>>, n)
+RECURSIVE DecFrom(_, _, _)
+DecFrom(ds, i, acc) == IF i > Len(ds) THEN acc ELSE DecFrom(ds, i + 1, AddN(MulByteFrom(acc, 10, 1, 0), SmallN(ds[i])))
+DecToN(ds) == Norm(DecFrom(ds, 1, <<>>))      \* ds: sequence of decimal digits 0..9, most significant first
+RECURSIVE BitsToInt(_, _)
+BitsToInt(s, i) == IF i > Len(s) THEN 0 ELSE s[i] * Pow2Small(i - 1) + BitsToInt(s, i + 1)      \* <= 24 bits
+RECURSIVE BitsToBytes(_)
+BitsToBytes(s) == IF s = <<>> THEN <<>>
+                  ELSE LET n == IF Len(s) < 8 THEN Len(s) ELSE 8 IN <<BitsToInt(SubSeq(s, 1, n), 1)>> \o BitsToBytes(SubSeq(s, n + 1, Len(s)))
+
 IsZeroN(a) == Norm(a) = <<>>
 
 \* bits, least significant first
 ByteBits(x) == <<x % 2, (x \div 2) % 2, (x \div 4) % 2, (x \div 8) % 2, (x \div 16) % 2, (x \div 32) % 2, (x \div 64) % 2, (x \div 128) % 2>>
 RECURSIVE BitsOf(_)
 BitsOf(a) == IF a = <<>> THEN <<>> ELSE ByteBits(Head(a)) \o BitsOf(Tail(a))
+FullBits(a, n) == LET b == BitsOf(a) IN [i \in 1..n |-> IF i <= Len(b) THEN b[i] ELSE 0]      \* exactly n bits
 RECURSIVE NormBits(_)
 NormBits(s) == IF s # <<>> /\ s[Len(s)] = 0 THEN NormBits(SubSeq(s, 1, Len(s) - 1)) ELSE s
 Bits(a) == NormBits(BitsOf(a))
